@@ -204,4 +204,14 @@ theorem Rel.prev_ne_self {h : Nat → Nat} {pt : PTable} {t : Table} (hr : Rel p
   rw [lastB_some_eq_some] at e
   exact hid_l1 (List.mem_of_getLast? e)
 
+theorem linkChain_prevOf (kind : Kind) (T : PTable) (item c k v : Nat) (pos : Nxt) :
+    (T.linkChain kind item c k v).prevOf pos = T.prevOf pos := by
+  unfold PTable.linkChain
+  cases pos with
+  | stl o => cases hh : T.heads c <;> simp [PTable.prevOf, PTable.setCell, hh]
+  | item j =>
+    cases hh : T.heads c with
+    | none => by_cases e : j = item <;> simp [PTable.prevOf, PTable.setCell, hh, upd, e]
+    | some n => by_cases e : j = item <;> by_cases e2 : j = n <;> by_cases e3 : item = n <;> simp_all [PTable.prevOf, PTable.setCell, upd]
+
 end Nstd.Hash.Ptr
